@@ -42,6 +42,12 @@ type c19Scenario struct {
 	AppReq bool `json:"app_req,omitempty"`
 	// Relist: after an ACK that switched a capability off, the server lists its capabilities once more
 	Relist bool `json:"relist,omitempty"`
+	// StrayReq: the server sends "AUTHENTICATE +" while the client's request is still unanswered, and
+	// again after refusing it (nothing has been acknowledged: no SASL data may be sent)
+	StrayReq bool `json:"stray_req,omitempty"`
+	// WantSasl: the application lists "sasl" among the capabilities it wants without configuring a
+	// SASL mechanism: the capability is requested like any other and an ACK of it starts nothing
+	WantSasl bool `json:"want_sasl,omitempty"`
 }
 
 // errC19Abort is how a negotiation script says "the link drops here" (not a violation).
@@ -61,6 +67,9 @@ func newCapModel(sc *c19Scenario) *capModel {
 	m := &capModel{wanted: map[string]bool{}, advertised: map[string]bool{}, held: map[string]bool{}, mech: sc.Sasl}
 	for _, c := range sc.Wanted {
 		m.wanted[c] = true
+	}
+	if sc.WantSasl {
+		m.wanted["sasl"] = true
 	}
 	switch sc.Sasl {
 	case "PLAIN":
@@ -125,6 +134,9 @@ func runC19(sc *c19Scenario) *Violation {
 	tc := newTestClient(cliOpts{Flood: true, Configure: func(cfg *client.Config) {
 		cfg.EnableCapabilityNegotiation = true
 		cfg.Capabilites = append([]string{}, sc.Wanted...)
+		if sc.WantSasl {
+			cfg.Capabilites = append(cfg.Capabilites, "sasl")
+		}
 		switch sc.Sasl {
 		case "PLAIN":
 			cfg.Sasl = sasl.NewPlainClient(string(sc.Authzid), string(sc.User), string(sc.Pass))
@@ -301,6 +313,15 @@ func runC19Once(sc *c19Scenario, tc *testClient, m *capModel, cycle int) *Violat
 	if sc.AbortAt == "req" {
 		return errC19Abort
 	}
+	if sc.StrayReq {
+		got, v := step("AUTHENTICATE +")
+		if v != nil {
+			return v
+		}
+		if v := expectLines("AUTHENTICATE + while the request is still unanswered (sasl not acknowledged)", got, m.onAuthPlus()); v != nil {
+			return v
+		}
+	}
 	ack := func(where string, caps []string) *Violation {
 		want := m.onACK(caps)
 		got, v := step(":irc.server CAP me ACK :" + strings.Join(caps, " "))
@@ -369,6 +390,15 @@ func runC19Once(sc *c19Scenario, tc *testClient, m *capModel, cycle int) *Violat
 		}
 		if v := checkHeld("after NAK"); v != nil {
 			return v
+		}
+		if sc.StrayReq {
+			got, v := step("AUTHENTICATE +")
+			if v != nil {
+				return v
+			}
+			if v := expectLines("AUTHENTICATE + after the request was refused (sasl not acknowledged)", got, m.onAuthPlus()); v != nil {
+				return v
+			}
 		}
 	case "ack_split":
 		// one acknowledgement per REQ line; a single REQ line is acknowledged in two halves
@@ -491,8 +521,13 @@ type c19Session struct {
 // capacity (the application keeps the longer list it was cut from); that list is returned.
 func c19Configure(cfg *client.Config, sc *c19Scenario) []string {
 	cfg.EnableCapabilityNegotiation = true
-	full := append(append([]string{}, sc.Wanted...), "spare-one", "spare-two")
-	cfg.Capabilites = full[:len(sc.Wanted)]
+	full := append([]string{}, sc.Wanted...)
+	if sc.WantSasl {
+		full = append(full, "sasl")
+	}
+	nw := len(full)
+	full = append(full, "spare-one", "spare-two")
+	cfg.Capabilites = full[:nw]
 	switch sc.Sasl {
 	case "PLAIN":
 		cfg.Sasl = sasl.NewPlainClient(string(sc.Authzid), string(sc.User), string(sc.Pass))
@@ -529,7 +564,11 @@ func runC19Session(ss *c19Session) *Violation {
 			return v
 		}
 		prev = m
-		if !c19SpareIntact(full, len(sc.Wanted)) {
+		nw := len(sc.Wanted)
+		if sc.WantSasl {
+			nw++
+		}
+		if !c19SpareIntact(full, nw) {
 			return violationf("C19", "negotiation %d: the application's own capability list was written to beyond the part handed to the client: %q", k+1, full)
 		}
 		// the link ends
@@ -557,7 +596,8 @@ func genC19Session(t *rapid.T) *c19Session {
 			Outcome: rapid.SampledFrom([]string{"903", "904", "908"}).Draw(t, "outcome"),
 			Stray:   rapid.IntRange(0, 3).Draw(t, "stray") == 0, EarlyEnd: rapid.IntRange(0, 3).Draw(t, "early_end") == 0,
 			LateNak: rapid.IntRange(0, 4).Draw(t, "late_nak") == 0, ReAck: rapid.IntRange(0, 4).Draw(t, "re_ack") == 0,
-			AppReq: rapid.IntRange(0, 3).Draw(t, "app_req") == 0, Relist: rapid.Bool().Draw(t, "relist")}
+			AppReq: rapid.IntRange(0, 3).Draw(t, "app_req") == 0, Relist: rapid.Bool().Draw(t, "relist"), StrayReq: rapid.IntRange(0, 2).Draw(t, "stray_req") == 0}
+		sc.WantSasl = sc.Sasl == "" && rapid.Bool().Draw(t, "want_sasl")
 		for _, c := range []string{"a", "b", "z"} {
 			if rapid.Bool().Draw(t, "wanted_"+c) {
 				sc.Wanted = append(sc.Wanted, c)
@@ -676,6 +716,8 @@ func TestC19_Enum(t *testing.T) {
 							// three more binary dimensions, spread over the enumeration rather than multiplied into it
 							sc.EarlyEnd, sc.LateNak, sc.ReAck = i%3 == 0, i%5 == 0, i%7 == 0 || i%9 == 0
 							sc.Relist = i%4 == 1
+							sc.StrayReq = i%11 < 4
+							sc.WantSasl = sm == "" && i%13 < 6
 							if i%2 == 0 {
 								sc.Cycles = 2
 							}
@@ -717,7 +759,8 @@ func genC19(t *rapid.T) *c19Scenario {
 	universe = uniqStrings(universe)
 	sc := &c19Scenario{Sasl: rapid.SampledFrom([]string{"", "PLAIN", "EXTERNAL"}).Draw(t, "sasl"),
 		Reply: rapid.SampledFrom([]string{"ack_split", "ack_split", "nak", "ack", "two_ls", "ack_reversed"}).Draw(t, "reply"), Outcome: rapid.SampledFrom([]string{"903", "904", "908"}).Draw(t, "outcome"),
-		Stray: rapid.Bool().Draw(t, "stray"), EarlyEnd: rapid.Bool().Draw(t, "early_end"), LateNak: rapid.Bool().Draw(t, "late_nak"), ReAck: rapid.Bool().Draw(t, "re_ack"), Cycles: rapid.IntRange(1, 3).Draw(t, "cycles")}
+		Stray: rapid.Bool().Draw(t, "stray"), EarlyEnd: rapid.Bool().Draw(t, "early_end"), LateNak: rapid.Bool().Draw(t, "late_nak"), ReAck: rapid.Bool().Draw(t, "re_ack"), Cycles: rapid.IntRange(1, 3).Draw(t, "cycles"), StrayReq: rapid.Bool().Draw(t, "stray_req")}
+	sc.WantSasl = sc.Sasl == "" && rapid.Bool().Draw(t, "want_sasl")
 	for _, c := range universe {
 		switch rapid.IntRange(0, 3).Draw(t, "membership") {
 		case 0:
